@@ -139,7 +139,35 @@ def worker(ctx):
         b.close()
 
 
+def probes(ctx):
+    run_probes(ctx, PID, {'import-module': probe_import})
+
+
+def probe_import(witness, ctx):
+    """build the module for a small interface against a hand-written conforming library and import it"""
+    from vlib import project
+    b = build.PybindBuilder(san=False)
+    try:
+        m, _ = project.project(tool.parse(witness['interface']))
+        out = tool.pybind_text(witness['interface'], ('',), [], False, 'm', b.template())
+        d = b.workdir()
+        ok, err, so = b.compile(d, {'m.cpp': out}, cxxlib.generate(m))
+        if not ok:
+            return 'does not build'
+        p = subprocess.run([sys.executable, '-c', 'import sys; sys.path.insert(0, %r); import m' % d], stdout=subprocess.PIPE,
+                           stderr=subprocess.PIPE, timeout=300, env=dict(os.environ, PYTHONPATH=''))
+        if p.returncode == 0:
+            return None
+        last = p.stderr.decode('utf8', 'replace').strip().split('\n')[-1]
+        return 'import fails: ' + re.sub(r"'[^']*'", "'..'", last)[:100]
+    finally:
+        b.close()
+
+
 def replay(case, ctx):
+    if 'probe' in case:
+        s = probe_import(case['witness'], ctx)
+        return [{'observed': s}] if s else []
     b = build.PybindBuilder(san=True)
     try:
         return run_case(case['case_seed'], case['tier'], b, ctx.acc)
